@@ -46,10 +46,10 @@ PROPS = {
     "C04": dict(
         bins={"main": dict(tc="gcc", src="prop_C04.cpp", variants=["plain"])},
         parts=[
-            dict(name="gp", workers={Q: 6, T: 6}, cases={Q: 8000, T: 100000}),
-            dict(name="rect", workers={Q: 2, T: 2}, cases={Q: 15000, T: 240000}),
-            dict(name="rectdistinct", workers={Q: 2, T: 2}, cases={Q: 10000, T: 120000}),
-            dict(name="rectplain", workers={Q: 6, T: 6}, cases={Q: 8000, T: 300000}),
+            dict(name="gp", workers={Q: 6, T: 6}, cases={Q: 8000, T: 60000}),
+            dict(name="rect", workers={Q: 2, T: 2}, cases={Q: 15000, T: 120000}),
+            dict(name="rectdistinct", workers={Q: 2, T: 2}, cases={Q: 10000, T: 100000}),
+            dict(name="rectplain", workers={Q: 6, T: 6}, cases={Q: 8000, T: 100000}),
         ],
         rule=("cases = (gp) general-position path sets, 60% nesting-heavy (stacks of 3-7 nested rings of alternating or "
               "equal orientation, second stacks, nested/random clips), 25% with open subject polylines; (rect) rectilinear "
@@ -117,8 +117,8 @@ PROPS = {
             "fuzz_misc_big": dict(tc="fuzzbig", src="fuzz_targets.cpp", variants=["plain"], flags=["-DFUZZ_TARGET=4", "-DFUZZ_BIG"], libs=[]),
         },
         parts=[
-            dict(name="deg", bin="main", workers={Q: 2, T: 2}, cases={Q: 6000, T: 300000}),
-            dict(name="allocfail", bin="main", workers={Q: 2, T: 3}, cases={Q: 300, T: 12000}),
+            dict(name="deg", bin="main", workers={Q: 2, T: 2}, cases={Q: 6000, T: 200000}),
+            dict(name="allocfail", bin="main", workers={Q: 2, T: 3}, cases={Q: 300, T: 3000}),
             dict(name="fuzz_bool", kind="fuzz", bin="fuzz_bool", workers={Q: 3, T: 3}, seconds={Q: 45, T: 900}),
             dict(name="fuzz_bool_z", kind="fuzz", bin="fuzz_bool_z", corpus="fuzz_bool", workers={Q: 1, T: 1}, seconds={Q: 45, T: 900}),
             dict(name="fuzz_bool_big", kind="fuzz", bin="fuzz_bool_big", corpus="fuzz_bool", workers={Q: 2, T: 2}, seconds={Q: 45, T: 900}),
@@ -205,7 +205,7 @@ PROPS = {
     ),
     "C06": dict(
         bins={"main": dict(tc="gcc", src="prop_C06.cpp", variants=["plain"])},
-        parts=[dict(name="poly", workers={Q: 16, T: 16}, cases={Q: 1200, T: 20000})],
+        parts=[dict(name="poly", workers={Q: 16, T: 16}, cases={Q: 1200, T: 60000})],
         rule=("cases = 1-3 disjoint simple polygons, each a star-shaped ring (4-12 vertices, stratified angles) with "
               "recursively nested holes and islands scaled into the measured inradius, either orientation convention, scales "
               "100..1e7, verified exactly to be simple with turning angles >= 10 degrees from reversal; |delta| from the classes "
@@ -224,7 +224,7 @@ PROPS = {
     ),
     "C07": dict(
         bins={"main": dict(tc="gcc", src="prop_C07.cpp", variants=["plain"])},
-        parts=[dict(name="stroke", workers={Q: 14, T: 14}, cases={Q: 500, T: 8000}),
+        parts=[dict(name="stroke", workers={Q: 14, T: 14}, cases={Q: 500, T: 40000}),
                dict(name="point", workers={Q: 2, T: 2}, cases={Q: 3000, T: 100000})],
         rule=("(stroke) mixtures of 1-4 open paths per call (1-point, 2-point and 3-8-point random polylines, self-crossing "
               "allowed, turning angles >= 10 degrees from reversal, edges >= 2 units) placed in disjoint regions farther apart "
